@@ -172,3 +172,17 @@ Theorem C10_adx_step_range :
   exists r s', rma_step ROps p nd s dx = Ok (VNum r, s') /\ 0 <= r <= 100.
 Proof. exact adx_step_range. Qed.
 Print Assumptions C10_adx_step_range.
+
+From Hexital Require Import Proofs.DonchianEnclose.
+(* "Donchian enclosing the candle's own high and low": about the faithful _calculate_reading model,
+   for the candle at index |a| of any store a ++ c :: rest - the bounds are the extremes of windows of
+   the high and low readings that include the candle itself (highest/lowest return a bound of their
+   window, C05; the window ends with the candle's own reading) *)
+Theorem C10_donchian_encloses_the_candle :
+  forall (I : ind ROps) rec (period : Z) (a rest : store ROps) (c : cd (payload ROps)) st' l u ln un dm,
+  i_kind ROps I = K_DONCHIAN period -> (1 <= period)%Z ->
+  calc_reading ROps rec I (a ++ c :: rest)%list (zlen a) = Ok (VDict [("DCL", l); ("DCM", dm); ("DCU", u)], st') ->
+  as_num ROps l = Ok ln -> as_num ROps u = Ok un -> l <> VBool false -> u <> VBool false ->
+  ln <= c_low ROps (cur ROps (p c)) /\ c_high ROps (cur ROps (p c)) <= un.
+Proof. exact donchian_encloses_candle. Qed.
+Print Assumptions C10_donchian_encloses_the_candle.
